@@ -53,6 +53,19 @@ func toEditionProto(ed filedesc.Edition) descriptorpb.Edition {
 	}
 }
 
+// isResolvableEdition reports whether getFeatureSetFor can resolve the feature
+// defaults of ed (toEditionProto knows it and the embedded defaults cover it).
+func isResolvableEdition(ed descriptorpb.Edition) bool {
+	switch ed {
+	case descriptorpb.Edition_EDITION_PROTO2, descriptorpb.Edition_EDITION_PROTO3,
+		descriptorpb.Edition_EDITION_2023, descriptorpb.Edition_EDITION_2024:
+		return defaults.GetMinimumEdition() <= ed && ed <= defaults.GetMaximumEdition()
+	case descriptorpb.Edition_EDITION_UNSTABLE:
+		return true
+	}
+	return false
+}
+
 func getFeatureSetFor(ed filedesc.Edition) *descriptorpb.FeatureSet {
 	defaultsCacheMu.Lock()
 	defer defaultsCacheMu.Unlock()
